@@ -113,7 +113,44 @@ where
     }
 }
 
-fn run_history<F: fmt::Format, A: Atomicity>(fmt_name: &str, ops: &[Value], slots: usize, id: u64, out: &mut Out) {
+/// character-level operations (formats with a CharFormat): pop_front_char, pop_front_char_run, try_push_char
+fn char_op<F, A>(p: &mut Pool<F, A>, op: &Value) -> Option<String>
+where
+    F: for<'a> fmt::CharFormat<'a>,
+    A: Atomicity,
+{
+    let i = op["i"].as_u64().unwrap_or(1) as usize - 1;
+    let j = (op["j"].as_u64().unwrap_or(1) as usize).saturating_sub(1);
+    let a = op["a"].as_u64().unwrap_or(0) as u32;
+    match op["op"].as_str().unwrap() {
+        "pop_char" => Some(match p.t[i].as_mut().unwrap().pop_front_char() {
+            Some(c) => format!("char:{}", c as u32),
+            None => "none".into(),
+        }),
+        "pop_run" => {
+            // classes: 0 = ASCII letter, 1 = ASCII whitespace, 2 = anything else
+            let r = p.t[i].as_mut().unwrap().pop_front_char_run(|c| if c.is_ascii_alphabetic() { 0u8 } else if c.is_ascii_whitespace() { 1 } else { 2 });
+            Some(match r {
+                Some((t, class)) => {
+                    p.t[j] = Some(t);
+                    format!("run:{}", class)
+                },
+                None => "none".into(),
+            })
+        },
+        "push_char" => Some(match char::from_u32(a) {
+            Some(c) => match p.t[i].as_mut().unwrap().try_push_char(c) {
+                Ok(()) => "ok".into(),
+                Err(()) => "invalid".into(),
+            },
+            None => "nochar".into(),
+        }),
+        _ => None,
+    }
+}
+type CharOp<F, A> = Option<fn(&mut Pool<F, A>, &Value) -> Option<String>>;
+
+fn run_history<F: fmt::Format, A: Atomicity>(fmt_name: &str, ops: &[Value], slots: usize, id: u64, out: &mut Out, cop: CharOp<F, A>) {
     crate::alloc::begin();
     let mut p: Pool<F, A> = Pool { t: (0..slots).map(|_| None).collect() };
     out.line(&json!({"ev":"reset","case":id,"fmt":fmt_name,"slots":slots}));
@@ -124,7 +161,20 @@ fn run_history<F: fmt::Format, A: Atomicity>(fmt_name: &str, ops: &[Value], slot
             break;
         }
         crate::alloc::on();
-        let r = catch(|| apply(&mut p, op, is_bytes));
+        // an operation addressed to an empty slot is not performed (the generator's shadow is only approximate)
+        let need_i = !matches!(op["op"].as_str().unwrap_or(""), "from");
+        let need_j = matches!(op["op"].as_str().unwrap_or(""), "push_tendril");
+        let si = op["i"].as_u64().unwrap_or(1) as usize - 1;
+        let sj = (op["j"].as_u64().unwrap_or(1) as usize).saturating_sub(1);
+        if (need_i && p.t[si].is_none()) || (need_j && p.t[sj].is_none()) {
+            out.line(&json!({"ev":"op","case":id,"op":op["op"],"i":op["i"],"j":op["j"],"a":op["a"],"b":op["b"],"x":op["x"],
+                             "res":"noslot","snap":snapshot(&p),"panicked":false}));
+            continue;
+        }
+        let r = catch(|| match cop.and_then(|f| f(&mut p, op)) {
+            Some(res) => res,
+            None => apply(&mut p, op, is_bytes),
+        });
         crate::alloc::off();
         let (res, snap) = match r {
             Ok(s) => (s, snapshot(&p)),
@@ -150,6 +200,11 @@ fn gen_history(r: &mut Rng, fmt_name: &str, slots: usize, nops: usize) -> Vec<Va
     let pieces: Vec<Vec<u8>> = if fmt_name == "utf8" {
         vec![b"a".to_vec(), "é".as_bytes().to_vec(), "€".as_bytes().to_vec(), "𝄞".as_bytes().to_vec(), b"hello world, ".to_vec(),
              "ééééé".as_bytes().to_vec(), vec![0xC3], vec![0xA9], vec![0xF0, 0x9D], b"0123456789abcdefXYZ".to_vec(), vec![]]
+    } else if fmt_name == "wtf8" {
+        // lead surrogates ED A0..AF xx, trail surrogates ED B0..BF xx, ordinary characters of every length, and invalid pieces
+        vec![b"a".to_vec(), vec![0xED, 0xA0, 0x80], vec![0xED, 0xB0, 0x80], vec![0xED, 0xAF, 0xBF], vec![0xED, 0xBF, 0xBF], vec![0xED, 0xA0, 0xBD, 0x61],
+             vec![0x61, 0xED, 0xB8, 0x80], "€".as_bytes().to_vec(), "𝄞".as_bytes().to_vec(), vec![0xED, 0x9F, 0xBF], b"0123456789abcdefXYZ".to_vec(),
+             vec![0xED, 0xA0, 0x80, 0xED, 0xB0, 0x80], vec![0xED, 0xA0], vec![0x80], vec![0xED, 0xB0, 0x80, 0xED, 0xA0, 0x80], vec![0xF0, 0x90, 0x80, 0x80], vec![]]
     } else if fmt_name == "ascii" {
         vec![b"a".to_vec(), b"hello".to_vec(), b"0123456789abcdefXYZ".to_vec(), vec![0x80], vec![0x41, 0xFF], vec![]]
     } else {
@@ -164,8 +219,18 @@ fn gen_history(r: &mut Rng, fmt_name: &str, slots: usize, nops: usize) -> Vec<Va
             let x = r.pick(&pieces).clone();
             ops.push(e("from", i, 0, 0, 0, &x));
             // may fail validation; the harness result decides, shadow assumes success only for valid utf8/ascii
-            let ok = match fmt_name { "utf8" => std::str::from_utf8(&x).is_ok(), "ascii" => x.iter().all(|b| *b < 128), _ => true };
+            let ok = match fmt_name { "utf8" => std::str::from_utf8(&x).is_ok(), "ascii" => x.iter().all(|b| *b < 128),
+                                      "wtf8" => tendril::Tendril::<fmt::WTF8>::try_from_byte_slice(&x).is_ok(), _ => true };
             if ok { live[i] = true; len[i] = x.len(); }
+            continue;
+        }
+        if matches!(fmt_name, "utf8" | "ascii" | "latin1") && r.chance(1, 6) {
+            // character-level operations
+            match r.below(3) {
+                0 => ops.push(e("pop_char", i, 0, 0, 0, &[])),
+                1 => { if i != j { ops.push(e("pop_run", i, j, 0, 0, &[])); live[j] = true; len[j] = len[i]; } },
+                _ => ops.push(e("push_char", i, 0, *r.pick(&[0x61usize, 0x20, 0x7F, 0x80, 0xE9, 0xFF, 0x100, 0x20AC, 0x1D11E, 0x0A]), 0, &[])),
+            }
             continue;
         }
         match r.below(18) {
@@ -213,7 +278,8 @@ fn gen_history(r: &mut Rng, fmt_name: &str, slots: usize, nops: usize) -> Vec<Va
             },
             0 | 1 | 2 => {
                 let x = r.pick(&pieces).clone();
-                let ok = match fmt_name { "utf8" => std::str::from_utf8(&x).is_ok(), "ascii" => x.iter().all(|b| *b < 128), _ => true };
+                let ok = match fmt_name { "utf8" => std::str::from_utf8(&x).is_ok(), "ascii" => x.iter().all(|b| *b < 128),
+                                      "wtf8" => tendril::Tendril::<fmt::WTF8>::try_from_byte_slice(&x).is_ok(), _ => true };
                 ops.push(e("push", i, 0, 0, 0, &x));
                 if ok { len[i] += x.len(); }
             },
@@ -245,12 +311,13 @@ pub fn main(args: &Args) {
     let mut go = |fmt_name: &str, ops: &[Value], slots: usize, out: &mut Out| {
         id += 1;
         match (fmt_name, atomic) {
-            ("utf8", false) => run_history::<fmt::UTF8, NonAtomic>(fmt_name, ops, slots, id, out),
-            ("utf8", true) => run_history::<fmt::UTF8, Atomic>(fmt_name, ops, slots, id, out),
-            ("ascii", _) => run_history::<fmt::ASCII, NonAtomic>(fmt_name, ops, slots, id, out),
-            ("latin1", _) => run_history::<fmt::Latin1, NonAtomic>(fmt_name, ops, slots, id, out),
-            (_, false) => run_history::<fmt::Bytes, NonAtomic>("bytes", ops, slots, id, out),
-            (_, true) => run_history::<fmt::Bytes, Atomic>("bytes", ops, slots, id, out),
+            ("utf8", false) => run_history::<fmt::UTF8, NonAtomic>(fmt_name, ops, slots, id, out, Some(char_op::<fmt::UTF8, NonAtomic>)),
+            ("utf8", true) => run_history::<fmt::UTF8, Atomic>(fmt_name, ops, slots, id, out, Some(char_op::<fmt::UTF8, Atomic>)),
+            ("ascii", _) => run_history::<fmt::ASCII, NonAtomic>(fmt_name, ops, slots, id, out, Some(char_op::<fmt::ASCII, NonAtomic>)),
+            ("latin1", _) => run_history::<fmt::Latin1, NonAtomic>(fmt_name, ops, slots, id, out, Some(char_op::<fmt::Latin1, NonAtomic>)),
+            ("wtf8", _) => run_history::<fmt::WTF8, NonAtomic>(fmt_name, ops, slots, id, out, None),
+            (_, false) => run_history::<fmt::Bytes, NonAtomic>("bytes", ops, slots, id, out, None),
+            (_, true) => run_history::<fmt::Bytes, Atomic>("bytes", ops, slots, id, out, None),
         }
     };
     if args.has("replay") {
@@ -263,7 +330,7 @@ pub fn main(args: &Args) {
     } else {
         let mut r = Rng::new(args.num("seed", 1));
         for _ in 0..args.num("n", 100) {
-            let f = *r.pick(&["bytes", "utf8", "utf8", "ascii", "latin1"]);
+            let f = *r.pick(&["bytes", "utf8", "utf8", "ascii", "latin1", "wtf8", "wtf8"]);
             let slots = 6;
             let ops = gen_history(&mut r, f, slots, args.num("ops", 60) as usize);
             go(f, &ops, slots, &mut out);
